@@ -35,8 +35,9 @@ Proof. exact mutated_set_sound. Qed.
 
 (* 8. with an accepted partition: the bodies of the mutate messages, concatenated, are a
       permutation of the mutated set and no entity occurs twice (so every mutated entity is in
-      exactly one message, with all its mutated components); no message is empty unless nothing
-      was mutated; the indices are the consecutive ones handed out from the client's
+      exactly one message, with all its mutated components); when something was mutated there is
+      at least one message and only the LAST one can have an empty body (the real split loop can
+      start a trailing message that stays empty), all others are non-empty; the indices are the consecutive ones handed out from the client's
       `ct_mutate_index`; all messages carry the server tick, the same update tick, and the
       number of messages when tracking; and (at most 2^16 messages: no index collision) every
       message is in flight in the client's ticks with exactly its entities *)
@@ -46,7 +47,7 @@ Theorem C10L1_mutations_partitioned : forall c s this_run cl p cl' out,
   let msgs := co_mutates out in
   Permutation (concat (map m_body msgs)) muts /\
   NoDup (map fst (concat (map m_body msgs))) /\
-  (muts <> [] -> forall m, In m msgs -> m_body m <> []) /\
+  (muts <> [] -> exists front last, msgs = front ++ [last] /\ forall m, In m front -> m_body m <> []) /\
   map m_idx msgs = idx_seq (ct_mutate_index (sc_ticks cl)) (length msgs) /\
   (forall m, In m msgs ->
      m_tick m = sv_tick s /\ m_upd_tick m = ct_update_tick (sc_ticks cl') /\
@@ -123,6 +124,16 @@ Example C10L1_ex_bad_partition :
   Some [mkCO 1 (Some (mkUpd 2 [] [] [] [(11, [(1, VNat 2)])]))
              [mkMut 2 2 1 1 [(10, [(0, VNat 8); (1, VNat 4)]); (13, [(1, VNat 3)])]] true].
 Proof. vm_compute. reflexivity. Qed.
+
+(* a trailing empty message is accepted (count 3, the last body empty); an empty one in the middle is not *)
+Example C10L1_ex_trailing_empty :
+  ex10_outs (server_frame ex10_cfg (ex10_after ex10_fA) true 16 false ex10_opsB [(1, [[13]; [10]; []])]) =
+  Some [mkCO 1 (Some (mkUpd 2 [] [] [] [(11, [(1, VNat 2)])]))
+             [mkMut 2 2 3 1 [(13, [(1, VNat 3)])]; mkMut 2 2 3 2 [(10, [(0, VNat 8); (1, VNat 4)])];
+              mkMut 2 2 3 3 []] false] /\
+  option_map (map co_bad_partition)
+    (ex10_outs (server_frame ex10_cfg (ex10_after ex10_fA) true 16 false ex10_opsB [(1, [[13]; []; [10]])])) = Some [true].
+Proof. split; vm_compute; reflexivity. Qed.
 
 (* the in-flight bookkeeping after the two messages *)
 Example C10L1_ex_in_flight :
